@@ -32,11 +32,13 @@ pub struct Domain {
     pub fds: f64,
     /// requests() is sometimes called while nothing is ready and interrupted by a signal (EINTR)
     pub eintr: bool,
+    /// clients act INSIDE requests() calls, between two elements of a batch (hook at_event)
+    pub race: bool,
 }
 
 pub fn domain(prop: &str, small: bool) -> Domain {
     let d = Domain { name: "C08", nclients: (1, 4), good: 99, steps: 60, kill: false, flush: true, setlimit: false,
-                     big_pad: false, close_weight: 0, eager_poll: 0.5, pipeline: 0.2, respond_weight: 5, big_to_nonreaders: false, fds: 0.0, eintr: true };
+                     big_pad: false, close_weight: 0, eager_poll: 0.5, pipeline: 0.2, respond_weight: 5, big_to_nonreaders: false, fds: 0.0, eintr: true, race: false };
     match prop {
         "C07" => Domain { name: "C07", nclients: (3, 5), good: 0, close_weight: 6, flush: true, ..d },
         "C08" => d,
@@ -48,6 +50,8 @@ pub fn domain(prop: &str, small: bool) -> Domain {
         "C18" => Domain { name: "C18", nclients: (1, if small { 4 } else { 11 }), good: 0, kill: true, close_weight: 1, ..d },
         // descriptors travel with any piece of any request; pipelining, malformed input, closes and late answers mixed in
         "C12srv" => Domain { name: "C12srv", nclients: (1, 3), good: 0, close_weight: 2, pipeline: 0.5, respond_weight: 3, fds: 0.5, ..d },
+        // the race-only branches: a client closes / half-closes / sends between two sub-steps of one call
+        "C09race" => Domain { name: "C09race", nclients: (2, 4), good: 1, close_weight: 2, race: true, pipeline: 0.4, respond_weight: 3, ..d },
         "C04" => Domain { name: "C04", nclients: (1, 3), good: 0, setlimit: true, close_weight: 1, ..d },
         _ => d,
     }
@@ -62,6 +66,41 @@ struct CState {
     nreq: usize,
     stop_reading: bool,
     nfd: usize,
+}
+
+/// One poll step; in a racing domain client actions are scheduled inside the call.
+fn poll_step(rng: &mut StdRng, dom: &Domain, d: &mut Driver, cs: &mut [CState], nclients: usize, limit: usize, out: &mut dyn Write) {
+    let mut ev = json!({"e": "poll"});
+    if dom.race && rng.gen_bool(0.6) {
+        let live: Vec<usize> = (1..=nclients).filter(|c| *c > dom.good && cs[c - 1].connected && !cs[c - 1].closed).collect();
+        let mut mids = vec![];
+        for _ in 0..rng.gen_range(1..=2) {
+            if let Some(&c) = live.choose(rng) {
+                let op = *["close", "close", "shutwr", "shutrd", "send", "send"].choose(rng).unwrap();
+                let mut m = json!({"at": rng.gen_range(0..3), "op": op, "c": c});
+                if op == "send" {
+                    cs[c - 1].nreq += 1;
+                    let k = cs[c - 1].nreq;
+                    // possibly only the first piece of a request: a partial request is legal input too
+                    let pieces = request_pieces(rng, c, k, false, limit);
+                    m["bytes"] = obs::bytes(&pieces[0]);
+                }
+                mids.push(m);
+            }
+        }
+        ev["mid"] = json!(mids);
+    }
+    d.step(&ev, out);
+    for (op, c) in d.last_mid.drain(..) {
+        if c >= 1 && c <= cs.len() {
+            match op.as_str() {
+                "close" => cs[c - 1].closed = true,
+                "shutwr" => cs[c - 1].wr = true,
+                "shutrd" => cs[c - 1].rd = true,
+                _ => {}
+            }
+        }
+    }
 }
 
 fn request_pieces(rng: &mut StdRng, c: usize, k: usize, good: bool, limit: usize) -> Vec<Vec<u8>> {
@@ -244,7 +283,7 @@ pub fn history(dom: &Domain, seed: u64, hist: u64, sock_dir: &str, out: &mut dyn
         }
         // the canonical caller polls when the descriptor is ready
         if d.ready() && (settling || rng.gen_bool(dom.eager_poll)) {
-            d.step(&json!({"e": "poll"}), out);
+            poll_step(&mut rng, dom, &mut d, &mut cs, nclients, limit, out);
             continue;
         }
         // candidate steps with weights
@@ -406,6 +445,9 @@ pub fn history(dom: &Domain, seed: u64, hist: u64, sock_dir: &str, out: &mut dyn
             "setlimit" => {
                 cur_limit = obs::from_digits(&chosen["limit"]) as usize;
                 d.step(&chosen, out);
+            }
+            "poll" if dom.race => {
+                poll_step(&mut rng, dom, &mut d, &mut cs, nclients, limit, out);
             }
             _ => {
                 d.step(&chosen, out);
